@@ -43,6 +43,11 @@ def generate(rng, tier, allocs=ALLOCS, nonfinite=False, nops=None, parses=False)
         M, lines, exp = D.gen_case(rng, alloc, n, dups=dups, allow_nonfinite=nonfinite, maps=not dups, focus=rng.choice([0.0, 0.0, 0.6, 0.9]), parses=parses and (k % 2 == 0))
         lines, exp = D.finish(M, lines, exp, rng)
         cases.append({"lines": lines, "exp": exp, "cls": f"{alloc}/{'dups' if dups else 'distinct'}/{n}", "nontrivial": len(lines) >= 10})
+    # wide objects (many members, record-like keys, families of long keys differing in one byte): every key through every lookup overload
+    # without a map, with a map, after DestroyMap and with a new map (appended behind the op-sequence stream: callers slice the front)
+    for k in range(40 if quick else 3000):
+        lines, exp = D.wide_lookup(rng, allocs[k % len(allocs)])
+        cases.append({"lines": lines, "exp": exp, "cls": "wide-lookup", "nontrivial": True})
     return cases
 
 
